@@ -105,4 +105,122 @@ theorem mapM_firstTwo {τ : Type} (g : Row → τ) (rows : List Row) (ts : List 
       · cases hd
     simp [ih bs hbs, hd']
 
+/-! ### arbitrary selection vectors (data handed directly to `add_observations`) -/
+
+theorem maskFilter_all_pos {α : Type} (p : α → Bool) (a : List α) (sel : List Bool)
+    (h : (maskFilter a sel).all p = true) (i : Nat) (x : α) (hs : sel[i]? = some true) (hx : a[i]? = some x) : p x = true := by
+  induction a generalizing sel i with
+  | nil => simp at hx
+  | cons y ys ih =>
+    cases sel with
+    | nil => simp at hs
+    | cons m ms =>
+      cases i with
+      | zero =>
+        simp only [List.getElem?_cons_zero, Option.some.injEq] at hs hx
+        subst hs hx
+        simp [maskFilter] at h
+        exact h.1
+      | succ i =>
+        simp only [List.getElem?_cons_succ] at hs hx
+        cases m with
+        | false => exact ih ms (by simpa [maskFilter] using h) i hs hx
+        | true =>
+          simp only [maskFilter, if_true, List.all_cons, Bool.and_eq_true] at h
+          exact ih ms h.2 i hs hx
+
+/-- `maskFilter_zipWith_agree` with the agreement only required where the second list is defined -/
+theorem maskFilter_zipWith_agree' {α β γ : Type} (f : α → β → γ) (a a' : List α) (b : List β) (m : List Bool)
+    (hlen : a.length = a'.length) (h : ∀ i : Nat, m[i]? = some true → i < b.length → a[i]? = a'[i]?) :
+    maskFilter (List.zipWith f a b) m = maskFilter (List.zipWith f a' b) m := by
+  induction m generalizing a a' b with
+  | nil => cases a <;> cases a' <;> cases b <;> simp [maskFilter]
+  | cons x m ih =>
+    cases a with
+    | nil => cases a' with
+      | nil => rfl
+      | cons _ _ => simp at hlen
+    | cons p as =>
+      cases a' with
+      | nil => simp at hlen
+      | cons p' as' =>
+        cases b with
+        | nil => simp [maskFilter]
+        | cons q bs =>
+          simp only [List.length_cons, Nat.add_right_cancel_iff] at hlen
+          have hrec := ih as as' bs hlen (fun i hi hb => by
+            simpa using h (i + 1) (by simpa using hi) (by simpa using hb))
+          cases x with
+          | false => simpa [maskFilter] using hrec
+          | true =>
+            have h0 : p = p' := by simpa using h 0 (by simp) (by simp)
+            simp [maskFilter, h0, hrec]
+
+theorem viewRows_mask_col (s s' : Screen) (hsh : shape s = shape s') (hlen : s.obs.length = s'.obs.length) (sel : List Bool) :
+    (viewRows s { parent := 0, sel := sel }).map (·.mask) = (viewRows s' { parent := 0, sel := sel }).map (·.mask) := by
+  unfold viewRows screenRows
+  simp only [← mask_eq hsh, ← sids_eq hsh, ← tids_eq hsh]
+  generalize s.mask.zip (s.sids.zip s.tids) = b
+  generalize s.obs = a at hlen
+  generalize s'.obs = a' at hlen
+  induction sel generalizing a a' b with
+  | nil => cases a <;> cases a' <;> cases b <;> simp [maskFilter]
+  | cons x sel ih =>
+    cases a with
+    | nil => cases a' with
+      | nil => rfl
+      | cons _ _ => simp at hlen
+    | cons p as =>
+      cases a' with
+      | nil => simp at hlen
+      | cons p' as' =>
+        cases b with
+        | nil => simp [maskFilter]
+        | cons q bs =>
+          simp only [List.length_cons, Nat.add_right_cancel_iff] at hlen
+          cases x <;> simp [maskFilter, ih bs as as' hlen]
+
+/-- the rows a selection exposes are the same on both screens as soon as every selected row is observed -/
+theorem viewRows_agree_of_all_observed (s s' : Screen) (h : AgreeOffMask s s') (sel : List Bool)
+    (hall : (viewRows s { parent := 0, sel := sel }).all (·.mask) = true) :
+    viewRows s { parent := 0, sel := sel } = viewRows s' { parent := 0, sel := sel } := by
+  have hpos := maskFilter_all_pos (fun r : Row => r.mask) (screenRows s) sel hall
+  unfold viewRows screenRows
+  simp only [← mask_eq h.shape, ← sids_eq h.shape, ← tids_eq h.shape]
+  apply maskFilter_zipWith_agree' _ _ _ _ _ h.len
+  intro i hi hb
+  by_cases hio : i < s.obs.length
+  · apply h.obs i
+    have hrow : (screenRows s)[i]? = some (Row.mk s.obs[i] (s.mask.zip (s.sids.zip s.tids))[i].2.1
+        (s.mask.zip (s.sids.zip s.tids))[i].2.2 (s.mask.zip (s.sids.zip s.tids))[i].1) := by
+      unfold screenRows
+      rw [List.getElem?_eq_getElem (by have := hb; simp at this ⊢; omega)]
+      simp
+    have hm := hpos i _ hi hrow
+    simp only at hm
+    have hlt : i < s.mask.length := by
+      have : i < (s.mask.zip (s.sids.zip s.tids)).length := hb
+      simp at this; omega
+    rw [List.getElem?_eq_getElem hlt]
+    simp only [List.getElem_zip] at hm
+    rw [hm]
+  · have h1 : s.obs.length ≤ i := Nat.le_of_not_lt hio
+    rw [List.getElem?_eq_none h1, List.getElem?_eq_none (by rw [← h.len]; exact h1)]
+
+/-- **every** selection vector: `add_observations(screen.subset(sel))` gives the same result (the same refusal or the
+    same recorded training data) on two screens that differ only behind the mask -/
+theorem addObservations_view_agree {τ : Type} (m : ModelKind) (transform : Nat → τ) (nanT : τ → Bool)
+    (s s' : Screen) (h : AgreeOffMask s s') (sel : List Bool) :
+    addObservations m transform nanT s.arity (viewRows s { parent := 0, sel := sel })
+      = addObservations m transform nanT s'.arity (viewRows s' { parent := 0, sel := sel }) := by
+  by_cases hall : (viewRows s { parent := 0, sel := sel }).all (·.mask) = true
+  · rw [← viewRows_agree_of_all_observed s s' h sel hall, arity_eq h.shape]
+  · have hcol := viewRows_mask_col s s' h.shape h.len sel
+    have hall' : (viewRows s' { parent := 0, sel := sel }).all (·.mask) = false := by
+      have e : ∀ l : List Row, l.all (·.mask) = (l.map (·.mask)).all id := by intro l; simp [List.all_map]
+      rw [e, ← hcol, ← e]; simpa using hall
+    have hall0 : (viewRows s { parent := 0, sel := sel }).all (·.mask) = false := by simpa using hall
+    unfold addObservations
+    simp [hall0, hall']
+
 end Batchie.Lemmas.Train
